@@ -6,9 +6,20 @@
 //!   q   <file> <mode> <regions>        regions with start <= length (or unbounded start):
 //!                                      index with the real indexer, query through IndexedReader
 //!   qb  <file> <mode> <regions>        regions whose start lies beyond the sequence length
-//!   wr  <w> <records>                  bytes written by fasta::io::Writer at line width w
-//! Implementation-only oracle:
-//!   fq  <records>                      FASTQ write / read / index round trip
+//!   wr  <w> <records>                  bytes written by fasta::io::Writer at line width w, the
+//!                                      records fasta::io::Reader reads back from them and the fai
+//!                                      records the indexer builds on them
+//!   rd  <file>                         records read by fasta::io::Reader::records (or the records
+//!                                      so far and the error class); rdw = same, verdict skip
+//!   qd  <file> <cap> <script> <regions> each region through a fresh IndexedReader over
+//!                                      BufReader::with_capacity(cap, ScriptedReader(file, script)):
+//!                                      script = delivery events (`k` = at most k bytes, `i` =
+//!                                      ErrorKind::Interrupted), the model's NV.Io.Source language
+//!   fq  <records> [sep]                bytes written by fastq::io::Writer (definition separator
+//!                                      sep, default SP), the records fastq::io::Reader reads back
+//!                                      and the fastq fai records
+//!   fqr <file>                         records read by fastq::io::Reader::records and index records
+//!                                      of fastq::io::Indexer on arbitrary bytes
 //!
 //! <mode>: c0 = Cursor over the bytes; b<k> = std BufReader of capacity k; z<k> = BGZF with blocks
 //! of k uncompressed bytes + gzi through bgzf::io::IndexedReader (indexing reads through the
@@ -27,6 +38,7 @@ use noodles_bgzf as bgzf;
 use noodles_core::{Position, Region, region::Interval};
 use noodles_fasta::{self as fasta, fai};
 use noodles_fastq as fastq;
+use nv::adversary::{Deliver, ScriptedReader};
 use nv::{Case, CaseWriter, Obs, Outcome, Rng, guarded, hex, unhex};
 
 // -------------------------------------------------------------------------------------------
@@ -266,6 +278,45 @@ fn run_queries(f: &[u8], mode: Mode, index: fai::Index, regs: &[Reg]) -> Vec<Res
             query_all(bgzf::io::IndexedReader::new(Cursor::new(z), gzi), index, regs)
         }
     }
+}
+
+fn fmt_script(s: &[Deliver]) -> String {
+    if s.is_empty() {
+        return "_".into();
+    }
+    s.iter()
+        .map(|e| match e {
+            Deliver::Interrupted => "i".to_string(),
+            Deliver::Bytes(k) => k.to_string(),
+        })
+        .collect::<Vec<_>>()
+        .join(",")
+}
+
+fn parse_script(s: &str) -> Vec<Deliver> {
+    if s == "_" {
+        return Vec::new();
+    }
+    s.split(',')
+        .map(|t| if t == "i" { Deliver::Interrupted } else { Deliver::Bytes(t.parse().expect("script item")) })
+        .collect()
+}
+
+/// qd: every region through its own reader, so that each query sees the script from its start
+fn run_qd(c: &Case) -> Obs {
+    let f = c.b(0);
+    let cap = (c.u(1) as usize).max(1);
+    let script = parse_script(&c.args[2]);
+    let regs = parse_regions(&c.args[3]);
+    let (recs, _err) = run_index(&f, Mode::Cursor);
+    let index = fai::Index::from(recs.clone());
+    let mut res = Vec::new();
+    for r in &regs {
+        let inner = BufReader::with_capacity(cap, ScriptedReader::new(f.clone(), script.clone()));
+        res.extend(query_all(inner, index.clone(), std::slice::from_ref(r)));
+    }
+    let obs = fmt_results(&res);
+    Obs::ok(obs, regs.len() > 1).with_verdict(check_queries(&f, Mode::Buf(cap), &recs, &regs, &res))
 }
 
 fn fai_roundtrip(recs: &[fai::Record]) -> Result<fai::Index, String> {
@@ -567,6 +618,72 @@ fn check_queries(
 
 type WRec = (Vec<u8>, Option<Vec<u8>>, Vec<u8>);
 
+/// fasta::io::Reader::records until the end or the first error
+fn read_fasta<R: BufRead>(r: R) -> (Vec<fasta::Record>, Option<String>) {
+    let mut rd = fasta::io::Reader::new(r);
+    let mut out = Vec::new();
+    let mut it = rd.records();
+    loop {
+        match guarded(AssertUnwindSafe(|| it.next())) {
+            Outcome::Panicked(_) => return (out, Some("Panic".into())),
+            Outcome::Done(None) => return (out, None),
+            Outcome::Done(Some(Ok(r))) => out.push(r),
+            Outcome::Done(Some(Err(e))) => return (out, Some(format!("Err:{}", nv::errkind(&e)))),
+        }
+    }
+}
+
+fn fmt_frecs(recs: &[fasta::Record], err: &Option<String>) -> String {
+    let rs: Vec<String> = recs
+        .iter()
+        .map(|r| {
+            format!(
+                "{}:{}:{}",
+                hex(r.name()),
+                r.description().map(|d| hex(d)).unwrap_or_else(|| "-".into()),
+                hex(r.sequence().as_ref())
+            )
+        })
+        .collect();
+    format!("{}|{}", rs.join(";"), err.clone().unwrap_or_else(|| "ok".into()))
+}
+
+/// rd: the sequential reader against the naive parse, and the same records for every chunking
+fn run_rd(f: &[u8], judged: bool) -> Obs {
+    let (recs, err) = read_fasta(f);
+    let obs = fmt_frecs(&recs, &err);
+    if !judged {
+        return Obs { obs, verdict: "skip".into(), nontrivial: false };
+    }
+    let eol = eol_class(f);
+    for cap in [1usize, 2, 3, 5, 64] {
+        let (r2, e2) = read_fasta(BufReader::with_capacity(cap, f));
+        if fmt_frecs(&r2, &e2) != obs {
+            return Obs::fail(obs, &format!("fasta-records-chunk-dependent-{eol}"), format!("cap={cap}"));
+        }
+    }
+    let nt = recs.len() > 1 || err.is_some();
+    let Some(naive) = naive_parse(f) else {
+        return if err.is_some() || f.is_empty() {
+            Obs::ok(obs, nt)
+        } else {
+            Obs::fail(obs, &format!("fasta-records-accepted-malformed-{eol}"), format!("{} records", recs.len()))
+        };
+    };
+    if err.is_some() || recs.len() != naive.len() {
+        return Obs::fail(obs, &format!("fasta-records-count-{eol}"), format!("{} vs {} {err:?}", recs.len(), naive.len()));
+    }
+    for (k, (r, n)) in recs.iter().zip(&naive).enumerate() {
+        if r.name() != &n.name[..] {
+            return Obs::fail(obs, &format!("fasta-records-name-{eol}"), format!("record {k}"));
+        }
+        if r.sequence().as_ref() != &n.bases[..] {
+            return Obs::fail(obs, &format!("fasta-records-sequence-{eol}"), format!("record {k}"));
+        }
+    }
+    Obs::ok(obs, nt)
+}
+
 fn parse_wrecs(s: &str) -> Vec<WRec> {
     if s == "_" {
         return vec![];
@@ -609,17 +726,16 @@ fn run_wr(c: &Case) -> Obs {
         wr.write_record(r).unwrap();
     }
     let out = wr.into_inner();
-    let obs = hex(&out);
-    // read back
-    let mut rd = fasta::io::Reader::new(&out[..]);
-    let back: Vec<io::Result<fasta::Record>> = rd.records().collect();
-    if back.len() != records.len() {
-        return Obs::fail(obs, "fasta-writer-reader-count", format!("w={w} {} vs {}", back.len(), records.len()));
+    // read back, index
+    let (back, rerr) = read_fasta(&out[..]);
+    let (ix0, ierr0) = run_index(&out, Mode::Cursor);
+    let obs = format!("{}|{}|{}", hex(&out), fmt_frecs(&back, &rerr), fmt_index(&ix0, &ierr0));
+    if rerr.is_some() || back.len() != records.len() {
+        return Obs::fail(obs, "fasta-writer-reader-count", format!("w={w} {} vs {} {rerr:?}", back.len(), records.len()));
     }
     for (k, (b, r)) in back.iter().zip(&records).enumerate() {
-        match b {
-            Ok(b) if b == r => {}
-            _ => return Obs::fail(obs, "fasta-writer-reader-record", format!("w={w} record {k}")),
+        if b != r {
+            return Obs::fail(obs, "fasta-writer-reader-record", format!("w={w} record {k}"));
         }
     }
     // the writer's own output is accepted by the indexer with the expected geometry, and a whole
@@ -650,6 +766,73 @@ fn run_wr(c: &Case) -> Obs {
 
 type QRec = (Vec<u8>, Vec<u8>, Vec<u8>, Vec<u8>);
 
+#[derive(Clone, Default)]
+struct SharedBuf(std::sync::Arc<std::sync::Mutex<Vec<u8>>>);
+
+impl Write for SharedBuf {
+    fn write(&mut self, buf: &[u8]) -> io::Result<usize> {
+        self.0.lock().unwrap().extend_from_slice(buf);
+        Ok(buf.len())
+    }
+    fn flush(&mut self) -> io::Result<()> {
+        Ok(())
+    }
+}
+
+/// fastq::io::Reader::records until the end or the first error
+fn read_fastq<R: BufRead>(r: R) -> (Vec<fastq::Record>, Option<String>) {
+    let mut rd = fastq::io::Reader::new(r);
+    let mut out = Vec::new();
+    let mut it = rd.records();
+    loop {
+        match guarded(AssertUnwindSafe(|| it.next())) {
+            Outcome::Panicked(_) => return (out, Some("Panic".into())),
+            Outcome::Done(None) => return (out, None),
+            Outcome::Done(Some(Ok(r))) => out.push(r),
+            Outcome::Done(Some(Err(e))) => return (out, Some(format!("Err:{}", nv::errkind(&e)))),
+        }
+    }
+}
+
+fn fmt_qrecs(recs: &[fastq::Record], err: &Option<String>) -> String {
+    let rs: Vec<String> = recs
+        .iter()
+        .map(|r| format!("{}:{}:{}:{}", hex(r.name()), hex(r.description()), hex(r.sequence()), hex(r.quality_scores())))
+        .collect();
+    format!("{}|{}", rs.join(";"), err.clone().unwrap_or_else(|| "ok".into()))
+}
+
+fn index_fastq<R: BufRead>(r: R) -> (Vec<fastq::fai::Record>, Option<String>) {
+    let mut ix = fastq::io::Indexer::new(r);
+    let mut out = Vec::new();
+    loop {
+        match guarded(AssertUnwindSafe(|| ix.index_record())) {
+            Outcome::Panicked(_) => return (out, Some("Panic".into())),
+            Outcome::Done(Ok(None)) => return (out, None),
+            Outcome::Done(Ok(Some(r))) => out.push(r),
+            Outcome::Done(Err(e)) => return (out, Some(format!("Err:{}", nv::errkind(&e)))),
+        }
+    }
+}
+
+fn fmt_qindex(recs: &[fastq::fai::Record], err: &Option<String>) -> String {
+    let rs: Vec<String> = recs
+        .iter()
+        .map(|r| {
+            format!(
+                "{}:{}:{}:{}:{}:{}",
+                hex(r.name().as_bytes()),
+                r.length(),
+                r.sequence_offset(),
+                r.line_bases(),
+                r.line_width(),
+                r.quality_scores_offset()
+            )
+        })
+        .collect();
+    format!("{}|{}", rs.join(","), err.clone().unwrap_or_else(|| "ok".into()))
+}
+
 fn run_fq(c: &Case) -> Obs {
     let recs: Vec<QRec> = if c.args[0] == "_" {
         vec![]
@@ -662,64 +845,97 @@ fn run_fq(c: &Case) -> Obs {
             })
             .collect()
     };
+    let sep: u8 = c.args.get(1).map(|s| s.parse().expect("sep")).unwrap_or(b' ');
     let records: Vec<fastq::Record> = recs
         .iter()
         .map(|(n, d, s, q)| fastq::Record::new(fastq::record::Definition::new(n.clone(), d.clone()), s.clone(), q.clone()))
         .collect();
-    let mut wr = fastq::io::Writer::new(Vec::new());
-    for r in &records {
-        wr.write_record(r).unwrap();
+    // the builder boxes its writer: collect the bytes through a shared buffer
+    let shared = SharedBuf::default();
+    {
+        let mut wr = fastq::io::writer::Builder::default().set_definition_separator(sep).build_from_writer(shared.clone());
+        for r in &records {
+            wr.write_record(r).unwrap();
+        }
     }
-    let out = wr.into_inner();
+    let out: Vec<u8> = shared.0.lock().unwrap().clone();
+    if sep == b' ' {
+        // Writer::new is the same writer with the default separator
+        let mut w2 = fastq::io::Writer::new(Vec::new());
+        for r in &records {
+            w2.write_record(r).unwrap();
+        }
+        if w2.into_inner() != out {
+            return Obs::fail("-", "fastq-writer-builder-differs", "default separator");
+        }
+    }
+    let (back0, rerr0) = read_fastq(&out[..]);
+    let (ix, ierr) = index_fastq(&out[..]);
+    let obs = format!("{}|{}|{}", hex(&out), fmt_qrecs(&back0, &rerr0), fmt_qindex(&ix, &ierr));
     let special = recs.iter().any(|(_, _, s, q)| {
         q.first().is_some_and(|&b| b == b'@' || b == b'+') || s.first().is_some_and(|&b| b == b'@' || b == b'+')
     });
     let class = if special { "at-plus-leading" } else { "plain" };
     for cap in [0usize, 1, 3, 7] {
-        let back: Vec<io::Result<fastq::Record>> = if cap == 0 {
-            fastq::io::Reader::new(&out[..]).records().collect()
-        } else {
-            fastq::io::Reader::new(BufReader::with_capacity(cap, &out[..])).records().collect()
-        };
-        if back.len() != records.len() {
-            return Obs::fail("-", &format!("fastq-roundtrip-count-{class}"), format!("cap={cap} {} vs {}", back.len(), records.len()));
+        let (back, rerr) = if cap == 0 { (back0.clone(), rerr0.clone()) } else { read_fastq(BufReader::with_capacity(cap, &out[..])) };
+        if rerr.is_some() || back.len() != records.len() {
+            return Obs::fail(obs, &format!("fastq-roundtrip-count-{class}"), format!("cap={cap} {} vs {} {rerr:?}", back.len(), records.len()));
         }
         for (k, (b, r)) in back.iter().zip(&records).enumerate() {
-            match b {
-                Ok(b) if b == r => {}
-                _ => return Obs::fail("-", &format!("fastq-roundtrip-record-{class}"), format!("cap={cap} record {k}")),
+            if b != r {
+                return Obs::fail(obs, &format!("fastq-roundtrip-record-{class}"), format!("cap={cap} record {k}"));
             }
         }
     }
     // fastq indexer: offsets point at the sequence and the quality scores
-    let mut ix = fastq::io::Indexer::new(&out[..]);
     for (k, (n, _, s, q)) in recs.iter().enumerate() {
-        match ix.index_record() {
-            Ok(Some(r)) => {
+        match ix.get(k) {
+            Some(r) => {
                 let so = r.sequence_offset() as usize;
                 let qo = r.quality_scores_offset() as usize;
                 let l = r.length() as usize;
                 let good = r.name().as_bytes() == &n[..]
                     && l == s.len()
                     && out.get(so..so + l) == Some(&s[..])
-                    && out.get(qo..qo + l) == Some(&q[..])
+                    && out.get(qo..qo + q.len()) == Some(&q[..])
                     && r.line_bases() == l as u64
                     && r.line_width() == l as u64 + 1;
                 if !good {
-                    return Obs::fail("-", &format!("fastq-index-offsets-{class}"), format!("record {k} {r:?}"));
+                    return Obs::fail(obs, &format!("fastq-index-offsets-{class}"), format!("record {k} {r:?}"));
                 }
             }
-            Ok(None) => return Obs::fail("-", "fastq-index-missing", format!("record {k}")),
-            Err(e) => {
+            None => {
                 // names that are not UTF-8 are rejected by the fastq indexer; not part of the property
                 if std::str::from_utf8(n).is_err() {
-                    return Obs::ok("-", true);
+                    return Obs::ok(obs, true);
                 }
-                return Obs::fail("-", "fastq-index-error", format!("record {k} {e}"));
+                return Obs::fail(obs, "fastq-index-missing", format!("record {k} {ierr:?}"));
             }
         }
     }
-    Obs::ok("-", special)
+    Obs::ok(obs, special)
+}
+
+/// fqr: arbitrary bytes through the FASTQ reader and indexer; both must not depend on the chunking
+fn run_fqr(c: &Case) -> Obs {
+    let f = c.b(0);
+    let (recs, rerr) = read_fastq(&f[..]);
+    let (ix, ierr) = index_fastq(&f[..]);
+    let r_obs = fmt_qrecs(&recs, &rerr);
+    let i_obs = fmt_qindex(&ix, &ierr);
+    let obs = format!("{r_obs}|{i_obs}");
+    let eol = eol_class(&f);
+    for cap in [1usize, 2, 3, 5, 7] {
+        let (r2, e2) = read_fastq(BufReader::with_capacity(cap, &f[..]));
+        if fmt_qrecs(&r2, &e2) != r_obs {
+            return Obs::fail(obs, &format!("fastq-records-chunk-dependent-{eol}"), format!("cap={cap}"));
+        }
+        let (i2, e2) = index_fastq(BufReader::with_capacity(cap, &f[..]));
+        if fmt_qindex(&i2, &e2) != i_obs {
+            return Obs::fail(obs, &format!("fastq-index-chunk-dependent-{eol}"), format!("cap={cap}"));
+        }
+    }
+    Obs::ok(obs, recs.len() > 1 || rerr.is_some())
 }
 
 // -------------------------------------------------------------------------------------------
@@ -794,8 +1010,12 @@ fn run(c: &Case) -> Obs {
             let res = run_queries(&f, Mode::Cursor, fai::Index::from(recs), &regs);
             Obs { obs: fmt_results(&res), verdict: "skip".into(), nontrivial: false }
         }
+        "qd" => run_qd(c),
         "wr" => run_wr(c),
+        "rd" => run_rd(&c.b(0), true),
+        "rdw" => run_rd(&c.b(0), false),
         "fq" => run_fq(c),
+        "fqr" => run_fqr(c),
         _ => Obs { obs: "-".into(), verdict: "skip".into(), nontrivial: false },
     }
 }
@@ -1204,6 +1424,7 @@ fn gen_regions(rng: &mut Rng, name: &[u8], len: u64, lb: u64, out_in: &mut Vec<R
 fn push_file_cases(rng: &mut Rng, w: &mut CaseWriter, f: &[u8], with_queries: bool) {
     let mode = gen_mode(rng);
     w.push("idx", vec![hex(f), mode.clone()]);
+    w.push("rd", vec![hex(f)]);
     if !with_queries {
         return;
     }
@@ -1231,6 +1452,32 @@ fn push_file_cases(rng: &mut Rng, w: &mut CaseWriter, f: &[u8], with_queries: bo
     }
     w.push("q", vec![hex(f), qmode.clone(), fmt_regions(&rin)]);
     w.push("qb", vec![hex(f), qmode, fmt_regions(&rbe)]);
+    if rng.chance(1, 2) && f.len() <= 1500 {
+        // a few of the in-range regions through a scripted source
+        let cap = *rng.pick(&[1usize, 2, 3, 5, 7, 16, 64]);
+        let with_intr = rng.chance(1, 2);
+        let style = rng.below(4);
+        let script: Vec<Deliver> = (0..rng.range(0, 60))
+            .flat_map(|_| {
+                let k = match style {
+                    0 => 1,
+                    1 => rng.range(1, 4),
+                    2 => rng.range(1, 40),
+                    _ => if rng.chance(1, 8) { rng.range(1, 70000) } else { rng.range(1, 9) },
+                } as usize;
+                let mut v = Vec::new();
+                if with_intr && rng.chance(1, 3) {
+                    v.push(Deliver::Interrupted);
+                }
+                v.push(Deliver::Bytes(k));
+                v
+            })
+            .collect();
+        let some: Vec<Reg> = rin.iter().filter(|r| r.e.is_none_or(|e| r.s.unwrap_or(1) <= e)).take(40).step_by(3).cloned().collect();
+        if !some.is_empty() {
+            w.push("qd", vec![hex(f), cap.to_string(), fmt_script(&script), fmt_regions(&some)]);
+        }
+    }
 }
 
 fn gen_wr(rng: &mut Rng, w: &mut CaseWriter) {
@@ -1255,37 +1502,128 @@ fn gen_wr(rng: &mut Rng, w: &mut CaseWriter) {
     w.push("wr", vec![width.to_string(), fmt_wrecs(&recs)]);
 }
 
+const UTF8_NAMES: &[&[u8]] = &[
+    b"r\xc3\xa9",                 // valid 2-byte
+    b"\xe2\x82\xacx",             // valid 3-byte
+    b"\xf0\x9f\x98\x80",          // valid 4-byte
+    b"\xed\x9f\xbf",              // valid, last before the surrogates
+    b"\xf4\x8f\xbf\xbf",          // valid, U+10FFFF
+    b"\xc0\x80",                  // overlong
+    b"\xed\xa0\x80",              // surrogate
+    b"\xf4\x90\x80\x80",          // beyond U+10FFFF
+    b"\xe0\x9f\xbf",              // overlong 3-byte
+    b"\xf0\x8f\xbf\xbf",          // overlong 4-byte
+    b"a\x80",                     // lone continuation
+    b"\xe2\x82",                  // truncated
+    b"\xf5\x80\x80\x80",          // invalid lead
+];
+
+fn gen_qrec(rng: &mut Rng, k: usize) -> QRec {
+    let len = rng.range(0, 40) as usize;
+    let seq = gen_seq(rng, len);
+    let mut q: Vec<u8> = (0..len).map(|_| rng.range(33, 126) as u8).collect();
+    if len > 0 {
+        match rng.below(5) {
+            0 => q[0] = b'@',
+            1 => q[0] = b'+',
+            2 => {
+                let i = rng.below(len as u64) as usize;
+                q[i] = b'@';
+                let j = rng.below(len as u64) as usize;
+                q[j] = b'+';
+            }
+            3 => q.iter_mut().for_each(|b| *b = if rng.chance(1, 2) { b'@' } else { b'+' }),
+            _ => {}
+        }
+    }
+    let d: Vec<u8> = if rng.chance(1, 2) {
+        vec![]
+    } else {
+        let m = rng.range(1, 10) as usize;
+        (0..m).map(|_| *rng.pick(b"abc XYZ:=@+\t")).collect()
+    };
+    let name = if rng.chance(1, 10) { rng.pick(UTF8_NAMES).to_vec() } else { gen_name(rng, k) };
+    (name, d, seq, q)
+}
+
 fn gen_fq(rng: &mut Rng, w: &mut CaseWriter) {
     let n = rng.range(1, 4) as usize;
     let recs: Vec<String> = (0..n)
         .map(|k| {
-            let len = rng.range(0, 40) as usize;
-            let seq = gen_seq(rng, len);
-            let mut q: Vec<u8> = (0..len).map(|_| rng.range(33, 126) as u8).collect();
-            if len > 0 {
-                match rng.below(5) {
-                    0 => q[0] = b'@',
-                    1 => q[0] = b'+',
-                    2 => {
-                        let i = rng.below(len as u64) as usize;
-                        q[i] = b'@';
-                        let j = rng.below(len as u64) as usize;
-                        q[j] = b'+';
-                    }
-                    3 => q.iter_mut().for_each(|b| *b = if rng.chance(1, 2) { b'@' } else { b'+' }),
-                    _ => {}
-                }
-            }
-            let d: Vec<u8> = if rng.chance(1, 2) {
-                vec![]
-            } else {
-                let m = rng.range(1, 10) as usize;
-                (0..m).map(|_| *rng.pick(b"abc XYZ:=@+")).collect()
-            };
-            format!("{}:{}:{}:{}", hex(&gen_name(rng, k)), hex(&d), hex(&seq), hex(&q))
+            let (name, d, seq, q) = gen_qrec(rng, k);
+            format!("{}:{}:{}:{}", hex(&name), hex(&d), hex(&seq), hex(&q))
         })
         .collect();
-    w.push("fq", vec![recs.join(";")]);
+    let sep = if rng.chance(1, 3) { b'\t' } else { b' ' };
+    w.push("fq", vec![recs.join(";"), sep.to_string()]);
+}
+
+/// FASTQ-like bytes: rendered records with LF / CRLF / mixed terminators, SP / HT separators,
+/// "+name" lines, a missing final newline, then (half of the cases) a few byte-level mutations
+fn gen_fqr(rng: &mut Rng, w: &mut CaseWriter) {
+    let n = rng.range(1, 4) as usize;
+    let file_crlf = rng.chance(1, 2);
+    let mixed = rng.chance(1, 5);
+    let mut f = Vec::new();
+    for k in 0..n {
+        let (mut name, d, seq, q) = gen_qrec(rng, k);
+        if rng.chance(1, 12) {
+            name.push(b'\r'); // a name that itself ends with CR
+        }
+        if rng.chance(1, 20) {
+            name.clear();
+        }
+        let eol = |rng: &mut Rng| -> &'static [u8] {
+            let crlf = if mixed { rng.chance(1, 2) } else { file_crlf };
+            if crlf { b"\r\n" } else { b"\n" }
+        };
+        f.push(b'@');
+        f.extend_from_slice(&name);
+        if !d.is_empty() || rng.chance(1, 10) {
+            f.push(if rng.chance(1, 3) { b'\t' } else { b' ' });
+            f.extend_from_slice(&d);
+        }
+        f.extend_from_slice(eol(rng));
+        f.extend_from_slice(&seq);
+        if rng.chance(1, 10) {
+            f.extend_from_slice(b"  ");
+        }
+        f.extend_from_slice(eol(rng));
+        f.push(b'+');
+        if rng.chance(1, 3) {
+            f.extend_from_slice(&name);
+        }
+        f.extend_from_slice(eol(rng));
+        f.extend_from_slice(&q);
+        f.extend_from_slice(eol(rng));
+    }
+    if rng.chance(1, 4) {
+        while matches!(f.last(), Some(b'\n' | b'\r')) {
+            f.pop();
+        }
+        if rng.chance(1, 3) {
+            f.push(b'\r');
+        }
+    }
+    if rng.chance(1, 2) {
+        for _ in 0..rng.range(1, 3) {
+            match rng.below(4) {
+                0 if !f.is_empty() => {
+                    let at = rng.below(f.len() as u64) as usize;
+                    f.remove(at);
+                }
+                1 => {
+                    let at = rng.below(f.len() as u64 + 1) as usize;
+                    f.truncate(at);
+                }
+                _ => {
+                    let at = rng.below(f.len() as u64 + 1) as usize;
+                    f.insert(at, *rng.pick(b"@+\n\r \t\x80\xc3>"));
+                }
+            }
+        }
+    }
+    w.push("fqr", vec![hex(&f)]);
 }
 
 fn generate(rng: &mut Rng, tier: &str, w: &mut CaseWriter) {
@@ -1308,6 +1646,7 @@ fn generate(rng: &mut Rng, tier: &str, w: &mut CaseWriter) {
     for f in fixed {
         let mut r = rng.fork();
         w.push("idx", vec![hex(f), "c0".into()]);
+        w.push("rd", vec![hex(f)]);
         if let Some(naive) = naive_parse(f) {
             let (mut rin, mut rbe) = (Vec::new(), Vec::new());
             for n in naive.iter().filter(|n| !n.bases.is_empty()) {
@@ -1339,6 +1678,7 @@ fn generate(rng: &mut Rng, tier: &str, w: &mut CaseWriter) {
             f.insert(at, *rng.pick(&[b'\r', b'\r', b'>', b'\n', b' ']));
         }
         w.push("idxw", vec![hex(&f), "c0".into()]);
+        w.push("rdw", vec![hex(&f)]);
         if let Some(naive) = naive_parse(&f) {
             let (mut rin, mut rbe) = (Vec::new(), Vec::new());
             for n in naive.iter().filter(|n| !n.bases.is_empty()) {
@@ -1354,6 +1694,12 @@ fn generate(rng: &mut Rng, tier: &str, w: &mut CaseWriter) {
     }
     for _ in 0..200 * scale {
         gen_fq(rng, w);
+    }
+    for fx in [&b"@r0\nACGT\n+\nNDLS\n"[..], b"@r0 LN:4\r\nACGT\r\n+r0\r\n@+@+\r\n", b"@\nA\r", b"@r0\r\nAC\r\n+\r\n!!", b"@r0", b"@r0\nAC\n", b"r0\n", b"@r0\nAC\n-\n!!\n", b""] {
+        w.push("fqr", vec![hex(fx)]);
+    }
+    for _ in 0..300 * scale {
+        gen_fqr(rng, w);
     }
     gen_systematic(rng, w, if tier == "thorough" { 9 } else { 4 });
     // exhaustive sweep (thorough): every (width, length) geometry up to 12 x 40, LF and CRLF,
